@@ -363,7 +363,7 @@ def main(argv=None):
             "discharged": n_dis,
             "checker_cmd": f"python3-vt -m pyvc.check {prop} --tier {tier}",
             "trusted_base": [
-                "pyvc: AST -> VC generator of /verif/pyvc (own implementation; guarded by seeded breaks and CPython differential runs, see DESIGN 2.7)",
+                "pyvc: AST -> VC generator of /verif/pyvc (own implementation; guarded by seeded breaks and CPython differential runs, see DESIGN 2.5)",
                 "z3 " + __import__("z3").get_version_string(),
                 "Python semantics of the supported subset as stated in DESIGN 2.3",
             ] + list(getattr(mod, "TRUSTED", [])),
